@@ -13,7 +13,7 @@ for name in sorted(os.listdir(os.path.join(V, "seeded"))):
     meta = {
         "seed": name,
         "property_broken": name[:3],
-        "round": 1 if name[3] in "ab" else (2 if name[3] in "cd" else 3),
+        "round": {"a": 1, "b": 1, "c": 2, "d": 2, "e": 3, "f": 3, "g": 4, "h": 4, "i": 5, "j": 5, "k": 6, "l": 6, "m": 6}.get(name[3], 7),
         "superseded": (open(os.path.join(d, "SUPERSEDED.md"), encoding="utf-8").read() if os.path.isfile(os.path.join(d, "SUPERSEDED.md")) else None),
         "files_changed": files,
         "what_it_needs_to_manifest": " ".join(note.split())[:900],
